@@ -6,12 +6,15 @@
     binary64: "every real input" a caller can pass); "representable values" are the decoded grid points
     dec k, k in the field's carrier range.
     [row_slack r b N] is an explicit rational: res * (rounding of the quotient, in steps) + (rounding of
-    decode); [C11_rows_ok] checks it is at most a quarter step for every row. *)
+    decode); [C11_rows_ok] checks it is at most a quarter step for every row.
+    The three hand-written bias quantisers (1059 / 1065: 0.01 m, 14 bits; 1230: 0.02 m, 16 bits) compute what a
+    df! row with the same parameters computes (Proofs/BiasNearest.v), so the same two theorems hold for them:
+    [C11_bias_nearest_0_01/0_02], [C11_bias_monotone_0_01/0_02]. *)
 From Coq Require Import Reals ZArith List Lia Bool QArith Qreals.
 From Flocq Require Import Core BinarySingleNaN.
 From RtcmModel Require Import Types BitIO Floats Field Bias Top.
 From RtcmGen Require Import GenFields.
-From RtcmProofs Require Import ListZ BitProofs DecodeTotal FloatProofs FloatBits FieldProofs.
+From RtcmProofs Require Import ListZ BitProofs DecodeTotal FloatProofs FloatBits FieldProofs BiasNearest.
 Import ListNotations.
 Open Scope Z_scope.
 
@@ -116,6 +119,48 @@ Section F64.
   Qed.
 End F64.
 
+(** ---------- the hand-written bias quantisers ---------- *)
+Theorem C11_bias_rows_ok : flt_near_ok 24 128 Hp32 Hpe32 row_0_01 = true /\ flt_near_ok 24 128 Hp32 Hpe32 row_0_02 = true.
+Proof. exact rows_near_ok. Qed.
+
+(** 1059 / 1065: x between the grid points k * 0.01 and (k+1) * 0.01 of the 14-bit field: the quantiser returns k
+    or k+1, and what it returns decodes to within half a step plus the slack (at most a quarter step) of x *)
+Theorem C11_bias_nearest_0_01 : forall (x : f32) k, is_finite x = true -> -8192 <= k -> k + 1 <= 8191 ->
+  let dec := fdec_core 24 128 Hp32 Hpe32 (Some f32_0_01) None in
+  (B2R (dec k) <= B2R x <= B2R (dec (k + 1)%Z))%R ->
+  let n := bias_quant f32_0_01 (f32_to_bits x) in
+  (n = k \/ n = k + 1) /\ bias_dequant f32_0_01 n = f32_to_bits (dec n) /\
+  (Rabs (B2R x - B2R (dec n)) <= B2R f32_0_01 / 2 + Q2R (row_slack 24 128 f32_0_01 None 8192))%R /\
+  (Q2R (row_slack 24 128 f32_0_01 None 8192) <= B2R f32_0_01 / 4)%R.
+Proof. intros x k Fx Hk Hk1. exact (bias_nearest 10737418 (-30) 14 (proj1 rows_near_ok) x k Fx Hk Hk1). Qed.
+
+(** 1230: the same on the 16-bit field with 0.02 m steps *)
+Theorem C11_bias_nearest_0_02 : forall (x : f32) k, is_finite x = true -> -32768 <= k -> k + 1 <= 32767 ->
+  let dec := fdec_core 24 128 Hp32 Hpe32 (Some f32_0_02) None in
+  (B2R (dec k) <= B2R x <= B2R (dec (k + 1)%Z))%R ->
+  let n := bias_quant f32_0_02 (f32_to_bits x) in
+  (n = k \/ n = k + 1) /\ bias_dequant f32_0_02 n = f32_to_bits (dec n) /\
+  (Rabs (B2R x - B2R (dec n)) <= B2R f32_0_02 / 2 + Q2R (row_slack 24 128 f32_0_02 None 32768))%R /\
+  (Q2R (row_slack 24 128 f32_0_02 None 32768) <= B2R f32_0_02 / 4)%R.
+Proof. intros x k Fx Hk Hk1. exact (bias_nearest 10737418 (-29) 16 (proj2 rows_near_ok) x k Fx Hk Hk1). Qed.
+
+(** monotone on the whole range of the field, never leaving it *)
+Theorem C11_bias_monotone_0_01 : forall (x y : f32), is_finite x = true -> is_finite y = true ->
+  let dec := fdec_core 24 128 Hp32 Hpe32 (Some f32_0_01) None in
+  (B2R (dec (-8192)%Z) <= B2R x)%R -> (B2R x <= B2R y)%R -> (B2R y <= B2R (dec 8191%Z))%R ->
+  -8192 <= bias_quant f32_0_01 (f32_to_bits x) <= bias_quant f32_0_01 (f32_to_bits y) /\ bias_quant f32_0_01 (f32_to_bits y) <= 8191.
+Proof. intros x y Fx Fy. exact (bias_monotone 10737418 (-30) 14 (proj1 rows_near_ok) x y Fx Fy). Qed.
+Theorem C11_bias_monotone_0_02 : forall (x y : f32), is_finite x = true -> is_finite y = true ->
+  let dec := fdec_core 24 128 Hp32 Hpe32 (Some f32_0_02) None in
+  (B2R (dec (-32768)%Z) <= B2R x)%R -> (B2R x <= B2R y)%R -> (B2R y <= B2R (dec 32767%Z))%R ->
+  -32768 <= bias_quant f32_0_02 (f32_to_bits x) <= bias_quant f32_0_02 (f32_to_bits y) /\ bias_quant f32_0_02 (f32_to_bits y) <= 32767.
+Proof. intros x y Fx Fy. exact (bias_monotone 10737418 (-29) 16 (proj2 rows_near_ok) x y Fx Fy). Qed.
+
+(** non-vacuity: -0.0075 m lies between the grid points -1 and 0 of 1065 and is quantised to the nearer one, -1
+    (the input on which the seeded change C11r3-A returns 0) *)
+Example C11_bias_example : bias_quant f32_0_01 (f32_to_bits (of_me 24 128 Hp32 Hpe32 (-16106127) (-31))) = -1.
+Proof. vm_compute. reflexivity. Qed.
+
 (** non-vacuity: df025 (ECEF coordinate, 38 bits, 0.0001 m, f64): 0.123456 m lies between grid points 1234
     and 1235 and is encoded as the nearer one, 1235 *)
 Example C11_example :
@@ -128,3 +173,8 @@ Print Assumptions C11_nearest_f32.
 Print Assumptions C11_monotone_f32.
 Print Assumptions C11_nearest_f64.
 Print Assumptions C11_monotone_f64.
+Print Assumptions C11_bias_rows_ok.
+Print Assumptions C11_bias_nearest_0_01.
+Print Assumptions C11_bias_nearest_0_02.
+Print Assumptions C11_bias_monotone_0_01.
+Print Assumptions C11_bias_monotone_0_02.
